@@ -12,7 +12,8 @@ Fresh sub-agents were each given only the text of one property and a scratch wor
 a change that breaks the property, still compiles, passes the pinned suite and needs something
 specific to manifest, with a demonstration. Round 1: one agent per property (20). Round 2: 13 more
 agents on the properties with the largest behaviour space, each told which change had already been
-used for its property. Every returned change was re-confirmed in a new scratch worktree by
+used for its property. Round 3: 12 more (C01 C02 C06 C07 C11 C12 C13 C15 C16 C17 C19 C20), each told
+the titles of the changes already used. Every returned change was re-confirmed in a new scratch worktree by
 `tools/confirm_seed.sh` / `confirm_seed_unit.sh` (patch applies, 33+9 tests pass with it, the
 demonstration fails with it and passes without it; for the two memory-ordering changes the
 demonstration is a Miri run) and then the property's quick check was run against it in /repo
@@ -26,8 +27,8 @@ the same change independently (C02/C03, C06/C07, C08/C11).
 for n,p,needs,c in rows:
     new+=f"| {n} | {p} | {needs.replace('|','/')} | {c} |\\n".replace('\\n','\n')
 new+='''
-All 33 are caught now, on every run, by the quick tier of the property they break. **Eleven were
-missed when first confirmed** and led to strengthening:
+All 45 are caught now, on every run, by the quick tier of the property they break. **Eighteen were
+missed when first confirmed** (eleven of rounds 1-2, seven of round 3) and led to strengthening:
 
 * *C01-no-fold-after-normalize* (only U+0130 is affected) and *R2-C14-std-is-uppercase* (final
   sigma, long s, micro sign, title-case digraphs): hand-picked alphabets cannot anticipate which
@@ -59,6 +60,31 @@ missed when first confirmed** and led to strengthening:
   residue at the right offset; instead of hoping for the right predecessor the **poisoned-scratch
   check** overwrites the whole slab (cfg-gated accessor) with each of six byte patterns before
   every call of a structured pool and of a complete small domain and demands the fresh result.
+* *R3-C19-cancel-lock-timeout* (the cancelling branch of `tick` takes the worker lock with a
+  timeout and gives up): invisible to a scheduler that *assumes* per hook point whether the lock
+  operation behind it blocks - the thread was only ever resumed with the lock free. The scheduler
+  now **derives the kind of each lock operation from the library source** (compiled in with
+  `include_str!`): blocking acquisition = blocking point, timed try-lock = yield (the thread may
+  also proceed while the lock is held, the attempt then really fails), plain try-lock = step. A
+  hook point whose following lock operation cannot be found is a machinery failure.
+* *R3-C12-inflight-not-cleared*: the duplicate match in the new stream was observed but
+  attributed to C06/C07 only; every consistency, from-scratch, panic or convergence violation
+  observed **after the first restart** of a scenario is now also a C12 violation
+  (`C12/after_restart/...`) - the property's mechanism list names the reset of scan position,
+  in-flight list and matches by the cleared run.
+* *R3-C13-stale-was-canceled*: needs an interruptible run followed by a run that takes the
+  empty-pattern / cleared path; two more event-loop variants.
+* *R3-C07-negative-atom-append-count*: family **Ap** (10 start texts of every atom shape x 8 suffix
+  kinds, 13 discriminating items) so that every way an append can add characters or words after
+  a negated / anchored / escaped atom is compared with the from-scratch result.
+* *R3-C01-greedy-end-off-by-one*: only in the greedy fallback beyond the matrix limit and only for
+  a needle whose first two characters are equal but occur once; family **repeated-needle-chars**
+  (14 filler lengths around every limit x ASCII / non-ASCII filler x 4 haystack layouts x 8
+  needles). Large-family violations are now replayable by their position in the family list.
+* *R3-C15-matchlist-unstable-sort*: stability only shows beyond the sorting routine's small-slice
+  path (> 20 elements); lists of every length 0..=96, 200 and 1000 with interleaved ties.
+* *R3-C17-owned-slice-u32-excluded-start*: arms reachable only through `(Bound, Bound)` tuples;
+  every (start kind x end kind) pair is enumerated for all four slice methods.
 * Confirming *C13-no-retry-for-zero-timeout* exposed a harness bug (a parked thread of a
   deadlocked execution kept a global lock; the next execution stalled and the run ended as a
   machinery failure instead of a verdict) - fixed by a pool of reference matchers.
